@@ -41,7 +41,76 @@ def gen_case(rng):
         g["order"] = rng.choice([1, 2])
         if not g.get("fk"):
             g["fk"] = "g%d" % i
+        if g.get("tmin") is None and g.get("tmax") is None and g["fk"] == "g%d" % i and rng.random() < 0.5:
+            # a minimisation goal that later priorities may degrade by `relaxation`
+            g["relax"] = rng.choice(["1/8", "1/2", "1"])
+            g["nominal"] = rng.choice([2, "1/2", 4, g.get("nominal", 1)])
     return c
+
+
+def check_retained_minimisation(ctx, c, snaps):
+    """the constraint that keeps a minimised goal for the later priorities is the documented
+    f <= f* + relaxation (scaled by the nominal, plus constraint_relaxation), resp. f = f* when
+    fix_minimized_values is set: compared with the constraint store after the priority"""
+    n = len(c["times"])
+    cr = gp.fnum(c.get("options", {}).get("constraint_relaxation", 0))
+    fix = bool(c.get("options", {}).get("fix_minimized_values", False))
+    prios = sorted({int(Fraction(str(g["prio"]))) for g in c["goals"]})
+    for pi, snap in enumerate(snaps):
+        if "stores_after" not in snap or pi >= len(prios):
+            continue
+        for g in c["goals"]:
+            if int(Fraction(str(g["prio"]))) != prios[pi] or g.get("tmin") is not None or g.get("tmax") is not None:
+                continue
+            if sum(1 for h in c["goals"] if h.get("fk") == g["fk"]) != 1:
+                continue        # a shared function key merges several goals' bounds (C02)
+            nom, relax = gp.fnum(g.get("nominal", 1)), gp.fnum(g.get("relax", 0))
+            for m in range(c["E"]):
+                f = np.array(c02.fsteps(g, snap["results"][m], n))
+                store_b = dict((fk, (lo, hi)) for fk, lo, hi in snap["stores_before"][1 if g["path"] else 0][m])
+                store_a = dict((fk, (lo, hi)) for fk, lo, hi in snap["stores_after"][1 if g["path"] else 0][m])
+                if g["fk"] not in store_a:
+                    ctx.violation("retained/missing", {"case": c, "priority_index": pi, "goal": g, "member": m},
+                                  what="a minimised goal left no constraint for the later priorities")
+                    continue
+                lo_a, hi_a = (np.array(v, dtype=float) for v in store_a[g["fk"]])
+                if fix and relax == 0.0:
+                    doc_lo, doc_hi = f / nom, f / nom
+                else:
+                    doc_lo, doc_hi = np.full(f.shape, -np.inf), (f + relax) / nom + cr
+                if g["fk"] in store_b:
+                    lo_b, hi_b = (np.array(v, dtype=float) for v in store_b[g["fk"]])
+                    doc_lo, doc_hi = np.maximum(doc_lo, lo_b), np.minimum(doc_hi, hi_b)
+                ctx.count("retained_minimisation_bounds")
+                tol = 1e-6 * (1 + np.abs(doc_hi[np.isfinite(doc_hi)]).max() if np.isfinite(doc_hi).any() else 1.0)
+                if hi_a.shape != doc_hi.shape or np.any(np.abs(np.where(np.isfinite(doc_hi), hi_a - doc_hi, 0.0)) > tol) or \
+                        np.any(np.isfinite(doc_hi) != np.isfinite(hi_a)):
+                    ctx.violation("retained/minimisation-bound",
+                                  {"case": c, "priority_index": pi, "goal": g, "member": m, "f_star": f.tolist(),
+                                   "stored_upper": hi_a.tolist(), "documented_upper": doc_hi.tolist()},
+                                  what="after priority %s the minimised goal is kept as f/nominal <= %s, documented (f* + relaxation)/nominal + constraint_relaxation = %s" % (
+                                      prios[pi], hi_a.tolist()[:3], doc_hi.tolist()[:3]))
+
+
+def resolve_implementation(snap, reported, scale):
+    """re-solve the very NLP the implementation handed to its solver, from other starts and with
+    tightened tolerances: True when that NLP itself has a better point than the reported one"""
+    tp = snap["transcribed"]
+    try:
+        sol = ca.nlpsol("s", "ipopt", tp["nlp"], {"ipopt.print_level": 0, "print_time": 0, "ipopt.tol": 1e-10,
+                                                   "ipopt.constr_viol_tol": 1e-10, "ipopt.sb": "yes"})
+        nx = tp["nlp"]["x"].shape[0]
+        best = None
+        for x0 in (np.zeros(nx), np.full(nx, 0.5), -np.ones(nx)):
+            r = sol(x0=x0, lbx=tp["lbx"], ubx=tp["ubx"], lbg=ca.veccat(*tp["lbg"]), ubg=ca.veccat(*tp["ubg"]))
+            if sol.stats()["success"]:
+                f = float(r["f"])
+                best = f if best is None else min(best, f)
+        # the implementation's own NLP has a strictly better feasible point than the one its solver
+        # returned: the solver stopped early on a correctly posed problem
+        return best is not None and best < reported - 1e-5 * scale
+    except Exception:  # noqa: BLE001
+        return False
 
 
 def observe_snapshot(snap, rng, probes=2):
@@ -163,6 +232,8 @@ def run(ctx):
         ctx.runtime_samples += 1
         if not out["ok"]:
             ctx.count("run_failed_solve")
+        if c.get("variant", "multi") == "multi":
+            check_retained_minimisation(ctx, c, out["snaps"])
         for pi, snap in enumerate(out["snaps"]):
             stores = snap["stores_before"]
             try:
@@ -244,6 +315,13 @@ def run(ctx):
             rep["independent_optimum"] = ind
             if ind is None:
                 ctx.count("independent_solve_failed")
+            elif abs(ind - reported) > 1e-5 * scale and resolve_implementation(snap, reported, scale):
+                # the solver stopped at a non-optimal point of a correctly formulated subproblem
+                # (e.g. IPOPT declaring success at iteration 0 on degenerate duplicated equalities):
+                # a solver-regime anomaly, not a formulation error (DESIGN.md section 2)
+                ctx.count("runtime_anomaly_solver_stopped_early")
+                ctx.extra.setdefault("runtime_anomalies", []).append(
+                    {"priority_index": pi, "reported": reported, "optimum_of_the_same_nlp_from_another_start": ind})
             elif abs(ind - reported) > 1e-5 * scale:
                 ctx.violation("certificate/not-optimal", rep,
                               what="reported objective %g is not the optimum of the documented subproblem (independent solve: %g, certified gap %g)" % (reported, ind, float(gap)))
